@@ -86,6 +86,18 @@ Fixpoint del {V} (k : N) (l : list (N * V)) : list (N * V) :=
   | (k', v) :: t => if N.eqb k' k then del k t else (k', v) :: del k t
   end.
 
+(** calcConsensusStateKey(height) = "ConsensusState" ++ encodeBlockHeight(height): the suffix is
+    binary.BigEndian.PutUint64, i.e. the eight bytes of the height, most significant first (the
+    low 64 bits: the parameter is a uint64).  The model's [d_cs] is keyed by the height itself;
+    [be64] is what the real key carries of it (printed after every Save and compared with the
+    bytes the database was actually handed), injective below 2^64 (ProofsChain.be64_injective). *)
+Fixpoint bytes_be (n : nat) (h : N) : list N :=
+  match n with
+  | O => []
+  | S n' => bytes_be n' (h / 256) ++ [h mod 256]
+  end.
+Definition be64 (h : N) : list N := bytes_be 8 h.
+
 (* ------------------------------------------------------------------ *)
 (** * The store *)
 
@@ -322,7 +334,7 @@ Inductive obs :=
 | ObBoot (r : lres)
 | ObOk
 | ObState (s : option cstate)
-| ObSave (ok : bool)
+| ObSave (key : option (list N))     (* None = panic; Some = the height suffix of the record's key *)
 | ObLoad (r : lres)
 | ObVals (r : vres)
 | ObParams (r : pres)
@@ -350,10 +362,10 @@ Definition step (m : machine) (o : op) : machine * obs :=
     ({| m_db := m_db m; m_cur := s' |}, ObState s')
   | OSave =>
     match m_cur m with
-    | None => (m, ObSave false)
+    | None => (m, ObSave None)
     | Some s => match save (m_db m) s with
-                | Some d' => ({| m_db := d'; m_cur := m_cur m |}, ObSave true)
-                | None => (m, ObSave false)
+                | Some d' => ({| m_db := d'; m_cur := m_cur m |}, ObSave (Some (be64 (last_height s))))
+                | None => (m, ObSave None)
                 end
     end
   | OLoad => (m, ObLoad (load (m_db m)))
